@@ -250,7 +250,7 @@ Definition decls_tyguard (p : fcprog) : bool :=
   && nodup_str (map fdname (fcpdefs p)).
 
 Definition prog_tyguard (p : fcprog) : bool :=
-  decls_tyguard p && forallb (def_tyguard p (cdata_of p) (ccodata_of p)) (fcpdefs p).
+  decls_tyguard p && negb (calls_main_prog p) && forallb (def_tyguard p (cdata_of p) (ccodata_of p)) (fcpdefs p).
 
 (* ---------- the witness of the former finding main-non-integer-result (corpus/fun/c12_main_nonint.sc; the source is
    rejected by the checker since fix 5b8c76f, the annotated form is what the checker before the fix produced):
